@@ -50,6 +50,9 @@ def asWOp (j : Json) : Except String WOp := do
   | "optimize" => return .optimize
   | _ => .error s!"unknown wrapper op {op}"
 
+/-- handlers of the encoder modules (`FP/Model/Enc/*.lean`), tried in order for ops not handled below -/
+def encHandlers : List (String → Json → Option (Except String Json)) := []
+
 def handle (j : Json) : Except String Json := do
   let op ← jStr j "op"
   match op with
@@ -127,7 +130,10 @@ def handle (j : Json) : Except String Json := do
     | some ws =>
       let ok ← jNat j "original_k"
       return strArr (kfdGivenLP { inp with cfg := { inp.cfg with k := ws.length, allowEmpty := true } } ws ok).dump
-  | _ => .error s!"unknown op {op}"
+  | _ =>
+    match encHandlers.findSome? (fun h => h op j) with
+    | some r => r
+    | none => .error s!"unknown op {op}"
 
 partial def loop (h : IO.FS.Stream) (out : IO.FS.Stream) : IO Unit := do
   let line ← h.getLine
